@@ -142,6 +142,13 @@ def write_inputs(d: str, seed: int, n: int) -> List[Tuple[str, str, str]]:
         for fmt in ("json", "xml", "aasx"):
             p = os.path.join(d, f"g{j}.{fmt}")
             open(p, "wb").write(g); out.append((p, fmt, "garbage"))
+    # (round 8) well-formed JSON files nested deeper than the interpreter follows (collections within collections), written as text
+    leaf_ = b'{"modelType": "Property", "idShort": "p", "valueType": "xs:int", "value": "1"}'
+    for depth_ in (300, 2000, 100000):
+        p = os.path.join(d, f"deep{depth_}.json")
+        open(p, "wb").write(b'{"submodels": [{"modelType": "Submodel", "id": "urn:deep", "submodelElements": ['
+                            + b'{"modelType": "SubmodelElementCollection", "idShort": "c", "value": [' * depth_ + leaf_ + b"]}" * depth_ + b"]}]}")
+        out.append((p, "json", f"deep-nesting:{depth_}"))
     out += [(os.path.join(d, "does-not-exist.json"), "json", "missing"), (os.path.join(d, "does-not-exist.xml"), "xml", "missing"),
             (os.path.join(d, "does-not-exist.aasx"), "aasx", "missing")]
     return out
